@@ -9,6 +9,7 @@ cp $WT/seeded_out/meta.json $OUT/agent_meta.json
 cd $WT || exit 2
 git checkout -q -- src 2>/dev/null
 rm -f tests/seeded_demo.rs
+git checkout -q --detach $(git -C /repo rev-parse HEAD)   # confirm against the CURRENT /repo HEAD (repairs may have landed since the agent started)
 export CARGO_TARGET_DIR=$WT/target CARGO_NET_OFFLINE=true
 git apply $OUT/patch.diff || { echo "patch does not apply"; exit 2; }
 SUITE=$(cargo nextest run --workspace --no-fail-fast --offline 2>&1 | grep -E "Summary" | tail -1)
